@@ -133,7 +133,7 @@ corrected with `gcf_k` turned out to violate C04 and C11 once the generator cove
 
 ### 9.5 Seeded changes (independent sub-agents, property text + scratch worktree only)
 
-One hundred and seventy-two changes are kept under `seeded/<id>/` (`patch.diff`, `demo.py`, `meta.json`; each
+One hundred and ninety-six changes are kept under `seeded/<id>/` (`patch.diff`, `demo.py`, `meta.json`; each
 confirmed by me in a scratch worktree: demo passes on HEAD, fails with the change, 176 tests pass with it): forty
 from the first round (two per property), ten from a second round of eight agents, seventeen from a third round
 of twelve agents, thirty-one from a fourth round of twenty agents that were asked to avoid the most obvious
@@ -146,8 +146,10 @@ but legitimate array properties and element types, units and magnitudes, argumen
 rarely used entry points, and twenty-two from a seventh round of twenty agents that were given the list of
 everything tried so far and asked for changes of another kind (formula details that are right for the default
 parameters only, the second / third segment, options that are accepted but ignored, interactions of two settings,
-metadata and folder handling, saturated or incomplete data, documented return conventions); sixty-six further
-submissions duplicated earlier changes and were not kept.  C04c, C11a, C11b and C11c were re-expressed on the tree in which the contact-point limits are corrected
+metadata and folder handling, saturated or incomplete data, documented return conventions), and twenty-four from
+an eighth round of twenty agents that were pointed at public functions hardly touched so far and at pairs of
+functions that must agree with each other; eighty-two further submissions duplicated earlier changes and were not
+kept.  C04c, C11a, C11b and C11c were re-expressed on the tree in which the contact-point limits are corrected
 with `gcf_k`, C10g on the tree in which `compute_poc` converts its input to floating point, C16g and C16i on the
 tree in which rating containers store `range_x` as plain floats, and re-confirmed.
 Two earlier seeds were retired: C08f (in-place normalisation that failed for integer arrays) is harmless since
@@ -156,7 +158,8 @@ broke the property because `available()` handed out its cached list; after the r
 harmless (its demonstration passes).  Neither is counted any more.
 `tools/run_seeds.py` applies each to `/repo`, runs the quick check of its property, undoes it and
 writes `seeded/RESULTS.json`.  All of them are reported by `./check <property> --tier quick`; all but one with a
-concrete failing input.  The exception is C08j (`poc_deviation_from_baseline` tests `|force − baseline|` instead of
+concrete failing input (the share of first-missed seeds per round was 8/17, 15/31, 14/26, 13/28, 10/22 and 5/24 in
+rounds three to eight).  The exception is C08j (`poc_deviation_from_baseline` tests `|force − baseline|` instead of
 the signed deviation): it keeps every returned index valid and invariant and leaves clean model curves untouched –
 what it changes is the estimate on curves with a descending baseline, for which the property states no accuracy –
 so no input violates the statement; the correspondence with the Lean model of the estimator breaks and the check
@@ -258,6 +261,23 @@ Checks that had to be strengthened because a seed was first missed or reported o
   prompts are skipped; a folder that only looks like a training set must be asked for again – C19k/l), C20 (folders
   below a dot-named directory and folders named by a relative path through `..` – C20h).  C08k was submitted for C07
   and is kept under C08 (the fallback is the middle of the clipped approach part).
+
+* eighth round (5 of 24 were first missed, 2 more had no failing input): C01 (a small sphere pushed to more than
+  twice its radius – C01i), C04 (an E(δ) scan requested after an ordinary fit must leave the reported results alone;
+  exceptions of the numerical library instead of an unsuccessful fit – C04h/i), C05 (a second scan request and the
+  accessor after a plateau-search fit return the stored arrays in the stored order – C05j), C06 (a freshly built
+  curve reports no preprocessing whatever earlier curves of the process went through; the options attribute is
+  edited in place as well – C06k/l), C07 (the curve's own `estimate_contact_point_index` agrees with the step –
+  C07j), C09 (the standalone rater fed with the curve's feature vector through `rate(samples=…)` – C09h), C10 (only
+  the constraint expression of a fixed parameter edited in place – C10j), C12 (the same parameters added to the
+  container in another order – C12i), C14 (lists that name a step twice, first in front of its required step –
+  C14k), C15 (fractional user ratings through export and import – C15i), C17 (a tip position that saturates and
+  hovers at a rigid surface; every stub dataset is evaluated once more in SI-like magnitudes so that the
+  logarithmic features do not saturate – C17i), C18 (a module whose `compute_ancillaries` returns undeclared
+  entries in another order; names and units of keys that are fit parameter and ancillary at once – C18h/i), C19 (a
+  non-default regressor in the second batch run – C19n), C20 (every map ends fully fitted and rated with non-default
+  rating settings – which also restored the detection of C20f that the sixth-round change of the map generator had
+  lost for the default seed; found by re-running all seeds).
 
 ### 9.6 Observations that are not findings
 
